@@ -3,6 +3,7 @@ package zh
 import (
 	"fmt"
 	"sort"
+	"strings"
 )
 
 // ---------- one PRNG state for every random choice (splitmix64) ----------
@@ -55,6 +56,7 @@ type GenOpts struct {
 	DVMask      int
 	LongAP      bool
 	FixedFields bool // every document carries every field name in play (identical field lists)
+	LongIDs     bool // occasionally an _id at the byte-length boundaries of its varint length prefix (127..5000 bytes)
 }
 
 func RandOpts(r *Rng, nd int, idbase string) GenOpts {
@@ -154,6 +156,12 @@ func GenBatch(r *Rng, o GenOpts) Batch {
 	}
 	for i := 0; i < o.NDocs; i++ {
 		id := fmt.Sprintf("%s%03d", o.IDBase, i)
+		if o.LongIDs && r.Chance(6) {
+			lens := []int{127, 128, 129, 255, 256, 257, 300, 1000, 5000}
+			if n := lens[r.Intn(len(lens))]; n > len(id) {
+				id += strings.Repeat("k", n-len(id))
+			}
+		}
 		d := Doc{Fields: []Field{IDField(id)}}
 		names := map[string]bool{}
 		if o.FixedFields {
@@ -326,6 +334,9 @@ func (b Batch) Stats() BatchStats {
 	return s
 }
 
+// SharedThesNames lets AddSynDocs name a thesaurus like an ordinary field (data in two sections)
+var SharedThesNames = true
+
 var ThesNames = []string{"syn1", "syn2", "thesaurus"}
 var SynVocab = []string{"happy", "glad", "joyful", "big", "large", "huge", "b", "cat", "日本", "x"}
 
@@ -341,6 +352,10 @@ func AddSynDocs(r *Rng, b Batch, idbase string) Batch {
 		used := map[string]bool{}
 		for j := 0; j < k; j++ {
 			th := ThesNames[r.Intn(nth)]
+			if SharedThesNames && r.Chance(5) {
+				// a thesaurus named like an ordinary (possibly doc-value) field of the batch
+				th = FieldNames[r.Intn(3)]
+			}
 			if used[th] {
 				continue
 			}
